@@ -1254,6 +1254,34 @@ func (k Keeper) DrawAsset(ctx sdk.Context, borrowID uint64, borrowerAddr string,
 	if pair.IsEModeEnabled {
 		assetRatesStatsLtv = assetRatesStats.ELtv
 	}
+	if pair.IsInterPool {
+		// an inter-pool loan is bounded by the collateral's LTV times the LTV of the transit
+		// asset that was bridged for it (same bound as BorrowAsset and as the liquidation threshold)
+		assetInPool, found := k.GetPool(ctx, lendPos.PoolID)
+		if !found {
+			return types.ErrPoolNotFound
+		}
+		transitFound := false
+		for _, data := range assetInPool.AssetData {
+			if data.AssetTransitType != 2 && data.AssetTransitType != 3 {
+				continue
+			}
+			transitAsset, found := k.Asset.GetAsset(ctx, data.AssetID)
+			if !found || transitAsset.Denom != borrowPos.BridgedAssetAmount.Denom {
+				continue
+			}
+			transitRatesStats, found := k.GetAssetRatesParams(ctx, data.AssetID)
+			if !found {
+				return types.ErrorAssetStatsNotFound
+			}
+			assetRatesStatsLtv = assetRatesStatsLtv.Mul(transitRatesStats.Ltv)
+			transitFound = true
+			break
+		}
+		if !transitFound {
+			return types.ErrorAssetStatsNotFound
+		}
+	}
 	err = k.VerifyCollateralizationRatio(ctx, borrowPos.AmountIn.Amount, assetIn, borrowPos.AmountOut.Amount.Add(borrowPos.InterestAccumulated.TruncateInt()).Add(amount.Amount), assetOut, assetRatesStatsLtv)
 	if err != nil {
 		return err
